@@ -312,7 +312,9 @@ Definition step (v : variant) (a : agent) (i : input) : agent * list out :=
       (* state requested (saved with the thread mapping); action event auto-continued *)
       let r0 := Conn Their t SRequested 0 d 0 in
       let a1 := set_th (set_conn a c r0) Their t c in
-      let abandoned x := (set_conn x c (with_state r0 SAbandoned), []) in
+      (* an error after this point: DID Exchange moves the record to abandoned (and announces it); the legacy service's
+         listener drops the error: the record stays as it was saved, in state requested, and nothing is announced *)
+      let abandoned x := (set_conn x c (with_state r0 (match p with DX => SAbandoned | LC => SRequested end)), []) in
       match dco with
       | None => abandoned a1
       | Some dc =>
